@@ -136,7 +136,7 @@ def seed3():
     ttf, _ = c07.gen_ttf(random.Random(5))
     t1 = (b"%!PS-AdobeFont-1.0: Foo 001.001\n/FontName /Foo def\n/Encoding 256 array\n0 1 255 {1 index exch /.notdef put} for\n"
           b"dup 65 /B put\ndup 66 /A put\nreadonly def\ncurrentdict end\ncurrentfile eexec\n") + bytes(range(64))
-    content1 = b"BT /F1 12 Tf 72 700 Td (AB) Tj /F2 10 Tf <00200041> Tj /F4 8 Tf (ab) Tj ET /Dn cs 0.2 0.4 scn 0 0 5 5 re f /Ix cs 1 sc 5 5 5 5 re f"
+    content1 = b"BT /F1 12 Tf 72 700 Td (AB) Tj /F2 10 Tf <00200041> Tj /F4 8 Tf (ab) Tj ET /Dn cs 0.2 0.4 scn 0 0 5 5 re f /Ix cs 1 sc 5 5 5 5 re f q 4 0 0 4 9 9 cm /It Do Q"
     content2 = (b"BT /F3 10 Tf 20 100 Td <8140> Tj ET /Lb CS 50 0 0 SC 1 1 m 9 9 l S q 2 0 0 2 0 0 cm /Outer Do Q "
                 b"BI /W 5 /H 2 /BPC 1 /F /CCF /DP << /K -1 /Columns 5 >> ID \x26\xba\x8a\x80\x08\x00\x80\nEI")
     rows = [list(content2[i:i + 16].ljust(16, b" ")) for i in range(0, len(content2), 16)]
@@ -145,7 +145,7 @@ def seed3():
         1: {"Type": Name("Catalog"), "Pages": Ref(2)},
         2: {"Type": Name("Pages"), "Kids": [Ref(3), Ref(6)], "Count": 2, "MediaBox": [0, 0, 612, 792]},
         3: {"Type": Name("Page"), "Parent": Ref(2), "Contents": [Ref(4)],
-            "Resources": {"Font": {"F1": Ref(7), "F2": Ref(10), "F4": Ref(16)},
+            "Resources": {"Font": {"F1": Ref(7), "F2": Ref(10), "F4": Ref(16)}, "XObject": {"It": Ref(22)},
                           "ColorSpace": {"Dn": [Name("DeviceN"), [Name("A"), Name("B")], Name("DeviceCMYK"), {"FunctionType": 2}],
                                          "Ix": [Name("Indexed"), Name("DeviceRGB"), 1, b"\x00\x00\x00\xff\xff\xff"]}}},
         4: Stream({"Filter": Name("RunLengthDecode")}, c03.rl_encode(r, content1)),
@@ -171,6 +171,9 @@ def seed3():
                                 "FontFile3": Ref(15)}},
         15: Stream({"Subtype": Name("CIDFontType0C")}, b"\x01\x00\x04\x01" + bytes(40)),
         16: {"Type": Name("Font"), "Subtype": Name("MMType1"), "BaseFont": Name("Times-Roman"), "Encoding": Name("StandardEncoding")},
+        22: Stream({"Type": Name("XObject"), "Subtype": Name("Image"), "Width": 2, "Height": 2, "ColorSpace": Name("DeviceRGB"), "BitsPerComponent": 8,
+                    "Filter": Name("FlateDecode"), "DecodeParms": {"Predictor": 2, "Colors": 3, "Columns": 2}},
+                   zlib.compress(c03.tiff_encode([[1, 2, 3, 4, 5, 6], [7, 8, 9, 10, 11, 12]], 3))),
         20: Stream({"Type": Name("XObject"), "Subtype": Name("Form"), "BBox": [0, 0, 50, 50], "Resources": {"XObject": {"Inner": Ref(21)}}},
                    b"q /Inner Do Q 0 0 m 1 1 l S"),
         21: Stream({"Type": Name("XObject"), "Subtype": Name("Form"), "BBox": [0, 0, 10, 10], "Matrix": [1, 0, 0, 1, 2, 2]}, b"0 0 3 3 re f"),
